@@ -2189,6 +2189,7 @@ class _Project:
         diagnostics: Dict[FileId, List[Diagnostic]] = {path: []}
         _, ext = os.path.splitext(path)
         pages: List[Tuple[Page, List[Diagnostic]]] = []
+        dropped: List[FileId] = []
         is_new_source = ext in RST_EXTENSIONS and not self.pages.keys_from_source(path)
         if optional_text is None:
             self.buffer_texts.pop(path, None)
@@ -2211,6 +2212,7 @@ class _Project:
                 for key in self.pages.keys_from_source(source):
                     if key not in generated:
                         del self.pages[key]
+                        dropped.append(key)
                 del self.pages[source]
                 if not source_pages:
                     self.pages.set_orphan_diagnostics(source, source_diagnostics)
@@ -2234,6 +2236,9 @@ class _Project:
 
             self.backend.flush()
 
+        # A page we dropped may be one that another YAML file generates as well
+        self._regenerate_other_generators(dropped, path)
+
         if is_new_source:
             # Pages which looked for this file (e.g. through a :doc: role) when it
             # did not exist yet have to be told that it is there now
@@ -2248,7 +2253,8 @@ class _Project:
 
         if fileid.suffix in RST_EXTENSIONS or self.yaml_domain.is_known_yaml(fileid):
             # Drop every page generated from this file: a YAML file can yield several
-            for key in self.pages.keys_from_source(fileid):
+            dropped = self.pages.keys_from_source(fileid)
+            for key in dropped:
                 del self.pages[key]
             del self.pages[fileid]
 
@@ -2262,6 +2268,9 @@ class _Project:
             # YAML files which inherit from this file have to be generated again
             for dependent in yaml_dependents:
                 self.update(dependent, self.buffer_texts.get(dependent))
+
+            # So have YAML files which generate one of the pages this file generated
+            self._regenerate_other_generators(dropped, fileid, yaml_dependents)
         else:
             self.update_asset(fileid)
 
@@ -2496,6 +2505,22 @@ class _Project:
         for source in set(sources):
             if source in self.asset_dg:
                 self.asset_dg.remove_edges_from(list(self.asset_dg.out_edges(source)))
+
+    def _regenerate_other_generators(
+        self,
+        dropped: Sequence[FileId],
+        source: FileId,
+        already_updated: Sequence[FileId] = (),
+    ) -> None:
+        """Pages have been dropped because the given source file no longer generates them.
+        Two YAML files may define one ref, in which case the page we held was the one
+        generated last: generate the other file again, so that its page is not lost."""
+        if not dropped:
+            return
+
+        for other in self.yaml_domain.other_generators(dropped, source):
+            if other not in already_updated:
+                self.update(other, self.buffer_texts.get(other))
 
     def update_dependents(self, fileid: FileId, only_changed: bool = False) -> None:
         """Re-parse the pages which recorded a dependency on a source file that has just been
